@@ -96,7 +96,6 @@ func hasErrResult(call ssa.CallInstruction) bool {
 	return n > 0 && isErrorType(sig.Results().At(n-1).Type())
 }
 
-
 // rulesPersist: P1 (persist before acknowledge), E1 (state before event), E2 (exactly one
 // write event), I4 (every merge refreshes the view), L1 (one failing log does not abort the batch).
 func rulesPersist(c *Ctx) {
@@ -586,6 +585,15 @@ func (c *Ctx) ackAfter(site ssa.CallInstruction, start startPt, k *siteKind, dep
 	}
 	if depth >= 3 {
 		return false, hit, tr
+	}
+	// the site runs in a goroutine started per item: the obligation moves to the spawner,
+	// after the spawning loop (and its WaitGroup.Wait)
+	if spawn, host := goSpawnOf(f); spawn != nil {
+		h2, t2 := findPath(host, after(spawn), func(in ssa.Instruction) bool { return c.isSite(k, in) }, successReturn, lenGuardCut(host, spawn))
+		if h2 == nil {
+			return true, nil, nil
+		}
+		return false, h2, t2
 	}
 	var callers []ssa.CallInstruction
 	for _, g := range c.RepoFns {
